@@ -253,7 +253,7 @@ func c02r2(c *an.Ctx) {
 		for hops := 0; hops < 4; hops++ {
 			hasCall := false
 			for _, i2 := range succ.Instrs {
-				if _, isCall := i2.(ssa.CallInstruction); isCall {
+				if ci, isCall := i2.(ssa.CallInstruction); isCall && !isDebugLog(ci.Common()) {
 					hasCall = true
 				}
 			}
@@ -361,8 +361,9 @@ func c02r3(c *an.Ctx) {
 			continue
 		}
 		e := ret.Results[0]
-		for _, st := range wres.Before(ret) {
-			if known, nonNil := nt.status(st, e, ret); !known || nonNil {
+		for _, sf := range wres.BeforeF(ret) {
+			st := sf.User
+			if known, nonNil := nt.statusF(sf, e, ret); !known || nonNil {
 				continue // a failure, or an error value handed through (term.Get): not a success return
 			}
 			nn++
@@ -679,8 +680,9 @@ func semDiscipline(c *an.Ctx, fn *ssa.Function, name string, isRelease func(*ssa
 			continue
 		}
 		e := ret.Results[errIdx]
-		for _, st := range res.Before(ret) {
-			known, nonNil := nt.status(st, e, ret)
+		for _, sf := range res.BeforeF(ret) {
+			st := sf.User
+			known, nonNil := nt.statusF(sf, e, ret)
 			rel, twice := hasTag(st, "rel"), hasTag(st, "rel2")
 			if !hasTag(st, "held") {
 				c.Check(!rel, name+" | no release on a way out that never took the semaphore", c.At(ret), "", "the semaphore is released on a path that did not take it: another stream's hold is dropped and two streams share the connection")
